@@ -810,9 +810,7 @@ func mSet(n *Nodis, conn *redis.Conn, cmd redis.Command) {
 		return
 	}
 	execCommand(conn, func() {
-		for i := 0; i < len(cmd.Args); i += 2 {
-			n.Set(cmd.Args[i], []byte(cmd.Args[i+1]), false)
-		}
+		n.MSet(cmd.Args...)
 		conn.WriteOK()
 	})
 }
@@ -995,10 +993,7 @@ func mGet(n *Nodis, conn *redis.Conn, cmd redis.Command) {
 	execCommand(conn, func() {
 		// read everything first: a key of the wrong type must fail the command before any part
 		// of the reply (the array header) has been written
-		values := make([][]byte, len(cmd.Args))
-		for i, v := range cmd.Args {
-			values[i] = n.Get(v)
-		}
+		values := n.MGet(cmd.Args...)
 		conn.WriteArray(len(values))
 		for _, value := range values {
 			if value == nil {
